@@ -60,7 +60,7 @@ AucOK == (kind = "auc" /\ Pos(a) # {} /\ Neg(a) # {}) =>
     /\ AUC(a, [i \in Idx(b) |-> 3 * b[i] * b[i] + 1]) = r
     /\ (Cardinality(Range(b)) = 1 => 2 * Num(r) = Den(r))
 
-(* regression: n SUM (y - mean)^2 = (n SUM y^2 - (SUM y)^2) (the integer form of SS_tot),
+(* regression: shift invariance; n SUM (y - mean)^2 = (n SUM y^2 - (SUM y)^2) (the integer form of SS_tot),
    perfect prediction, Cauchy-Schwarz MAE^2 <= MSE, R^2 <= 1, MSE through R^2 *)
 RegOK == (kind = "reg") =>
     LET d == Diff(a, b) IN
@@ -69,6 +69,14 @@ RegOK == (kind = "reg") =>
     /\ (Num(MSE(a, b, 1)) = 0 <=> a = b) /\ (Num(MAE(a, b, 1)) = 0 <=> a = b)
     /\ Num(MAE(a, b, 1)) * Num(MAE(a, b, 1)) <= n * Num(MSE(a, b, 1))
     /\ RatEq(MSE(a, b, 2), << Num(MSE(a, b, 1)), 4 * n >>)
+    (* invariance under a common shift of truth and prediction: the justification of the
+       offset family of the trace validation *)
+    /\ \A k \in {0 - 3, 7, 1000} :
+          LET ak == [i \in Idx(a) |-> a[i] + k]
+              bk == [i \in Idx(b) |-> b[i] + k]
+          IN  /\ MSE(ak, bk, 1) = MSE(a, b, 1)
+              /\ MAE(ak, bk, 1) = MAE(a, b, 1)
+              /\ R2(ak, bk) = R2(a, b)
     /\ (NSSTot(a) > 0 => /\ Num(R2(a, b)) <= Den(R2(a, b))
                          /\ R2(a, a) = << NSSTot(a), NSSTot(a) >>
                          (* predicting the mean everywhere gives R^2 = 0 (n b_i = SUM a) *)
